@@ -19,11 +19,6 @@ import Rtp.Props.C16
 namespace Rtp.Props.C06
 open Rtp Rtp.Model Rtp.Model.Packetizer Rtp.Pred.C06 Rtp.Proofs.Packetizer Rtp.Spec.AbsSendTimeValue
 
-private theorem wf_parts {cfg : Packetizer} {ops : List PkOp} (h : wf cfg ops = true) :
-    64 ≤ cfg.mtu.toNat ∧ cfg.pt.toNat < 128 ∧ AbsValid cfg ∧ ops.all opWf = true := by
-  simp only [wf, Bool.and_eq_true, decide_eq_true_eq, Bool.or_eq_true, beq_iff_eq] at h
-  exact ⟨h.1.1.1, h.1.1.2, h.1.2, h.2⟩
-
 /-- **c06_seq.** The sequence numbers of all packets, in emission order, are consecutive mod 2^16,
     continuing across calls and across padding, starting with the sequencer's next value. -/
 theorem c06_seq (cfg : Packetizer) (ops : List PkOp) (h : wf cfg ops = true) :
